@@ -130,6 +130,8 @@ SHAPES = {
     "kw_two_roles_rev": ("i = interface +cpp { m(delete: i32); }\ne = enum { delete; }", "documented:InvalidIdentifierException"),
     "kw_harmless_roles": ("e = enum { delete; new; class; }\ndelete = record { a: i32; }", None),
     "kw_java_field": ("e = enum { native; }\nr = record { native: i32; }", "documented:InvalidIdentifierException"),
+    "kw_cxx20_word": ("r = record { constinit: i32; }", "documented:InvalidIdentifierException"),
+    "kw_jni_param_camel": ("i = interface +cpp { m(delete_: i32); }", "documented:InvalidIdentifierException"),
     "cb_nested_generic_pair": ("foo = record { a: i32; }\nbar = record { b: i32; }\ni = interface +cpp { m(cb: (items: list<list<foo>>)); n(cb: (items: list<list<bar>>)); }", None),
     "cb_generic_pair_depth1": ("foo = record { a: i32; }\nbar = record { b: i32; }\ni = interface +cpp { m(cb: (items: map<string, foo>)); n(cb: (items: map<string, bar>)); }", None),
     "date_bin": ("i = interface +cpp { m(d: date, b: binary) -> date; }", None),
